@@ -1447,6 +1447,10 @@ class QvmCpu:
         start -= 1
 
         try:
+            if start >= len(str1):
+                # nothing is found in an empty string or beyond the
+                # end of the string, not even an empty string
+                raise ValueError
             index = str1.index(str2, start)
         except ValueError:
             index = 0
